@@ -162,10 +162,15 @@ pub fn c09_script(r: &mut Rng, index: u64, _tier: Tier) -> (CaseCfg, Vec<Step>) 
             let up: Vec<Prop> = (0..r.below(3)).map(|_| boundary_prop(r, 2)).collect();
             s.push(Step::Unsubscribe(UnsubSpec { filters: vec![str_of(*r.pick(&[1usize, 128, 65535]), r), "x".into()], props: up, cancel_at: None }));
             s.push(poll0());
-            let dp = match r.below(4) {
+            // every property the API lets a client attach to a DISCONNECT, alone and together
+            let dp = match r.below(8) {
                 0 => None,
                 1 => Some(vec![]),
                 2 => Some(vec![Prop::ReasonString(str_of(*r.pick(&[0usize, 1, 2, 3]), r))]),
+                3 => Some(vec![Prop::ServerReference(str_of(*r.pick(&[0usize, 1, 5]), r))]),
+                4 => Some(vec![Prop::SessionExpiry(*r.pick(&[0u32, 1, u32::MAX]))]),
+                5 => Some(vec![Prop::ReasonString("bye".into()), Prop::ServerReference("other:1883".into()), Prop::UserProperty("a".into(), "b".into()), Prop::SessionExpiry(0)]),
+                6 => Some(vec![Prop::ServerReference("s".into()), Prop::ReasonString("r".into())]),
                 _ => Some(vec![Prop::UserProperty("a".into(), "b".into())]),
             };
             s.push(Step::Disconnect(DiscSpec { reason: *r.pick(&[None, Some(0u8), Some(4), Some(0x80), Some(0x98)]), props: dp, cancel_at: None }));
@@ -307,9 +312,12 @@ pub fn c10_script(r: &mut Rng, _index: u64, _tier: Tier) -> (CaseCfg, Vec<Step>)
         policy,
         faults: vec![],
         connack: ConnackSpec::Normal { sp: SpMode::Force(r.chance(1, 2) && !s.is_empty()), reason: 0, props },
-        broker: BrokerPolicy { acks: AckMode::Immediate, ping, fail_pct: 0, longform_pct: 0 },
+        // one case in four: the broker withholds its acknowledgements, so that publishes stay
+        // unresolved (and QoS 2 exchanges stay between PUBREC and PUBCOMP) across the ping instants
+        broker: BrokerPolicy { acks: if r.chance(1, 4) { AckMode::Hold } else { AckMode::Immediate }, ping, fail_pct: 0, longform_pct: 0 },
         cancel_at: None,
     }));
+    let withheld = matches!(s.last(), Some(Step::Connect(c)) if c.broker.acks == AckMode::Hold);
     // one case in six: a sluggish executor polls the task that arriving data woke only a while
     // later (the PINGRESP is there in time, the client looks at it late)
     if r.chance(1, 6) {
@@ -349,6 +357,11 @@ pub fn c10_script(r: &mut Rng, _index: u64, _tier: Tier) -> (CaseCfg, Vec<Step>)
         let len = if small_mps && r.chance(2, 3) { 40 } else { 2 };
         match r.below(6) {
             0 => s.push(Step::Publish(PubSpec { topic: "k".into(), payload: PayloadSpec::Fill { len, tag: i as u32, ascii: false }, qos: 0, retain: false, props: vec![], correlate: None, cancel_at: None })),
+            1 if withheld && i % 2 == 1 => {
+                // a QoS 2 publish whose PUBREC arrives and whose PUBCOMP does not
+                s.push(Step::Publish(PubSpec { topic: "k".into(), payload: PayloadSpec::Fill { len, tag: i as u32, ascii: false }, qos: 2, retain: false, props: vec![], correlate: None, cancel_at: None }));
+                s.push(Step::Broker(BrokerAct::Release { n: 1, order: Order::Fifo }));
+            }
             1 => s.push(Step::Publish(PubSpec { topic: "k".into(), payload: PayloadSpec::Fill { len, tag: i as u32, ascii: false }, qos: 1, retain: false, props: vec![], correlate: None, cancel_at: None })),
             4 if small_mps => s.push(Step::Publish(PubSpec { topic: "k".into(), payload: PayloadSpec::Fill { len: 40, tag: i as u32, ascii: false }, qos: 0, retain: false, props: vec![], correlate: None, cancel_at: None })),
             2 => s.push(Step::Broker(BrokerAct::Send(SPacket::Publish { dup: false, qos: 0, retain: false, topic: "in".into(), pid: None, props: vec![], payload: vec![1] }))),
@@ -502,8 +515,36 @@ pub fn saturation_script(r: &mut Rng, _index: u64, _tier: Tier) -> (CaseCfg, Vec
 
 /// C04 workload: the inbound QoS 2 table is (nearly) full when the connection is lost before the
 /// last PUBREC went out; the broker redelivers that PUBLISH on the next connection.
-pub fn c04_script(r: &mut Rng, _index: u64, _tier: Tier) -> (CaseCfg, Vec<Step>) {
+pub fn c04_script(r: &mut Rng, index: u64, _tier: Tier) -> (CaseCfg, Vec<Step>) {
     use crate::refcodec::SPacket;
+    if index % 3 == 2 {
+        // an acknowledgement and a keep-alive PINGREQ are owed together; the transport takes the
+        // acknowledgement (flushed) and the connection ends somewhere in the PINGREQ; the session
+        // resumes: the acknowledgement that went out must not be repeated
+        let cfg = CaseCfg { rx: 128, tx: 512, keepalive: *r.pick(&[1u16, 2, 10]), ..CaseCfg::default() };
+        let eff = cfg.keepalive as u64 * 1_000_000;
+        let qos = 1 + r.below(2) as u8;
+        let pid = *r.pick(&[1u16, 9, 65535]);
+        let mut s = vec![connect_with(SpMode::Force(false), AckMode::Hold, vec![])];
+        if let Some(Step::Connect(c)) = s.last_mut() {
+            c.broker.ping = AckMode::Never;
+        }
+        s.push(Step::Broker(BrokerAct::Send(SPacket::Publish { dup: false, qos, retain: false, topic: "in".into(), pid: Some(pid), props: vec![], payload: vec![1, 2] })));
+        // handed to the application; its acknowledgement is queued, not yet written
+        s.push(Step::Recv { max_wait: 0, cancel_at: None });
+        // the application is busy until the PINGREQ is due as well
+        s.push(Step::Advance(eff - 5_000_000u64.min(eff / 2) + 1));
+        // the acknowledgement (4 or 5 bytes incl. a reason byte) passes, the PINGREQ does not
+        let cut = *r.pick(&[0usize, 1]);
+        s.push(Step::Broker(BrokerAct::WriteGate { after: 4 + cut, blocks: 1 }));
+        s.push(Step::Poll { max_wait: 1, cancel_at: None });
+        s.push(if r.chance(1, 2) { Step::DropConn } else { Step::ForgetConn });
+        s.push(connect_with(SpMode::Force(true), AckMode::Hold, vec![]));
+        for _ in 0..3 {
+            s.push(poll0());
+        }
+        return (cfg, s);
+    }
     let cfg = CaseCfg { rx: 128, tx: 512, keepalive: 0, ..CaseCfg::default() };
     let n = *r.pick(&[8u16, 8, 8, 7, 3]);
     let base = *r.pick(&[1u16, 100, 65520]);
